@@ -111,9 +111,7 @@ def gen(ctx):
             for b in pick(B):
                 cl = set(pick(C)) | {smax - a - b + d for d in (-1, 0, 1)}
                 add('nat3 %s %d %d %s' % (combo, a, b, ','.join(map(str, sorted(c for c in cl if TYPES[C][0] <= c <= TYPES[C][1])))))
-    lines.append('self16 lattice %d' % ctx.seed)
-    if ctx.thorough:
-        lines.append('self16 full %d' % ctx.seed)
+    lines.append('self16 lattice %d %d 4' % (ctx.seed, 4096 if ctx.thorough else 192))
     return lines
 
 
@@ -128,6 +126,14 @@ def run(ctx):
     lines = gen(ctx)
     ctx.log('spec laws model-checked; driver built; %d cases' % len(lines))
     outs, aborts = drive(exe, lines, timeout=2400)
+    if ctx.thorough:
+        # all 2^32 value pairs of the four 16-bit type pairs, result types int16/uint16: same driver source built without the
+        # sanitizers (the sanitized build covers the same code on the 8-bit-complete, lattice and random sets)
+        fast = ucheck.build_like_test(ctx, 'math_fast', 'testMath', ['u_math.cc', 'uhelp.cc'], san=False)
+        fouts, faborts = drive(fast, ['self16 full %d 0 6' % ctx.seed], timeout=3000)
+        outs += fouts
+        lines = lines + ['self16 full']
+        aborts += [(len(lines) - 1, e) for _, e in faborts]
     for idx, err in aborts:
         ctx.violation('driver aborted while evaluating: %s' % lines[idx][:200], {'class': {'kind': 'abort', 'op': lines[idx].split()[0]}, 'line': lines[idx], 'stderr': err})
     recs, src = [], []
@@ -179,7 +185,7 @@ def run(ctx):
                        '8-bit x 8-bit value pair for Less<A,B>, IncreaseSum<A,B>, NaturalSum<S>(a,b) with S,A,B in {int8,uint8}%s. Lattice: for every ordered pair of the '
                        'eight types (and every result type for NaturalSum/SetToNaturalSumOrMax) the values min-1..min+1, -1, 0, 1, max-1..max+1 of every narrower-or-equal '
                        'type plus the b around max(S) - a; 16 type combinations of three-argument sums. driver_checked: Less, IncreaseSum, NaturalSum, SetToNaturalSumOrMax '
-                       'over 16-bit x 16-bit (a in all, b in lattice + 4096 random%s) against __int128, evaluated by the driver. Every evaluation has a distinct '
+                       'over 16-bit x 16-bit (a in all, b in 65 lattice values + random values%s) against __int128, evaluated by the driver. Every evaluation has a distinct '
                        '(helper, types, values) tuple.' % (
                            ' and SetToNaturalSumOrMax' if ctx.thorough else '; SetToNaturalSumOrMax on a quarter of the a values',
                            '; thorough also all 2^32 pairs for result types int16/uint16' if ctx.thorough else ''))
